@@ -129,6 +129,28 @@ def build(tier, repo):
     chk.note_analysed("functions_with_parse_call", nparse)
     r6.require(120)
 
+    r8 = chk.rule("C19-R8", "running min/max accumulators update themselves (`v = MAX(v, e)`), not a sibling accumulator",
+                  "range checks computed over index arrays see every entry")
+    for fname, c in cs.items():
+        for fn in c.order:
+            node = c.funcs[fn]
+            txt = c.text(node["b"], node["e"])
+            accs = list(re.finditer(r"\b(\w+)\s*=\s*(MAX|MIN)\s*\(\s*(\w+)\s*,", txt))
+            names = {(m_.group(1), m_.group(2)) for m_ in accs if m_.group(1) == m_.group(3)} | \
+                    {(m_.group(1), m_.group(2)) for m_ in accs}
+            for m_ in accs:
+                v, kind, u = m_.group(1), m_.group(2), m_.group(3)
+                if not re.fullmatch(r"[A-Za-z_]\w*", u) or u.isupper():
+                    continue
+                key = "%s:%s:%s = %s(%s, ..)" % (fname, fn, v, kind, u)
+                where = "src/C/%s:%s:%d" % (fname, fn, c.line_of(node["b"] + m_.start()))
+                if u == v:
+                    r8.ok(key, where)
+                elif any(n_ == u for n_, k_ in names):
+                    r8.violation(key, where,
+                                 "accumulator `%s` is updated from the sibling accumulator `%s`: its running %s only reflects the last entry"
+                                 % (v, u, kind.lower()), "%s = %s(%s, ..)" % (v, kind, v), "%s(%s, ..)" % (kind, u))
+
     r7 = chk.rule("C19-R7", "length / index / buffer macros have their reference definitions",
                   "guards and index wrapping mean what the rules above assume")
     defs = {}
